@@ -436,13 +436,6 @@ impl Recv {
         // Transition the state
         stream.state.recv_close()?;
 
-        if *frame.pseudo() != frame::Pseudo::default() {
-            // RFC 9113, section 8.1: "Pseudo-header fields MUST NOT appear in
-            // a trailer section."
-            proto_err!(stream: "recv_trailers: pseudo-header field in trailers; stream={:?};",  stream.id);
-            return Err(Error::library_reset(stream.id, Reason::PROTOCOL_ERROR));
-        }
-
         if stream.ensure_content_length_zero().is_err() {
             proto_err!(stream: "recv_trailers: content-length is not zero; stream={:?};",  stream.id);
             return Err(Error::library_reset(stream.id, Reason::PROTOCOL_ERROR));
